@@ -156,6 +156,35 @@ def _is_output_share(v):
 
 
 # ------------------------------------------------------------------ concrete composite runs with ghost checks
+class Snap:
+    """snapshot of the share values inside x, each taken the moment it is available (callers mutate field elements in place later)"""
+    def __init__(self, x):
+        import asyncio
+        from mpyc import finfields, asyncoro
+        self.slots = []
+        def rec(o):
+            if isinstance(o, asyncio.Future):
+                k = len(self.slots); self.slots.append(None)
+                def fill(f, k=k):
+                    if f.cancelled() or f.exception() is not None: return
+                    sub = Snap(f.result())
+                    self.slots[k] = sub
+                if o.done(): fill(o)
+                else: o.add_done_callback(fill)
+            elif isinstance(o, asyncoro.SecureObject): rec(o.share)
+            elif isinstance(o, finfields.FiniteFieldElement): self.slots.append((type(o), o.value))
+            elif isinstance(o, (list, tuple)):
+                for e in o: rec(e)
+        rec(x)
+
+    def values(self):
+        out = []
+        for s_ in self.slots:
+            if isinstance(s_, Snap): out += s_.values()
+            else: out.append(s_)
+        return out
+
+
 class Ghost:
     """records every output / _reshare call of every party (k-th call of each party correspond) for SH checks afterwards"""
     def __init__(self):
@@ -167,12 +196,12 @@ class Ghost:
 
         def output(self, x, receivers=None, threshold=None, raw=False):
             y = G.orig['output'](self, x, receivers, threshold, raw)
-            G.calls.setdefault(('output', self.pid), {})[tuple(self._program_counter)] = (x, threshold, y, receivers)
+            G.calls.setdefault(('output', self.pid), {})[tuple(self._program_counter)] = (Snap(x), threshold, None, receivers)
             return y
 
         def _reshare(self, x):
             y = G.orig['_reshare'](self, x)
-            G.calls.setdefault(('_reshare', self.pid), {})[tuple(self._program_counter)] = (x, None, y, None)
+            G.calls.setdefault(('_reshare', self.pid), {})[tuple(self._program_counter)] = (Snap(x), None, Snap(y), None)
             return y
         R.output = output; R._reshare = _reshare
 
@@ -182,6 +211,7 @@ class Ghost:
     @staticmethod
     def shares_of(x):
         """list of integer share values of x (secure object / field element / list / future), after the run"""
+        if isinstance(x, Snap): return x.values()
         import asyncio
         from mpyc import finfields, asyncoro
         out = []
@@ -280,7 +310,8 @@ def _programs():
             sh = await rt.gather(ops)
             return got, want, [s.value for s in sh], p, (a, b)
         return prog
-    return dict(int_ops=P_int_ops)
+    from sx import mpprogs
+    return dict(int_ops=P_int_ops, **mpprogs.PROGRAMS)
 
 
 def concrete_program(m, t, no_prss, prog_name, l, k, seeds):
@@ -302,12 +333,17 @@ def concrete_program(m, t, no_prss, prog_name, l, k, seeds):
             got0, want, _, p, inputs = res[0]
             for i, (got, _, _, _, _) in enumerate(res):
                 if got != want:
-                    j = [x != y for x, y in zip(got, want)].index(True)
-                    bad = f'party {i} result #{j} is {got[j]} instead of {want[j]} for inputs {inputs} (seed {seed})'; break
+                    j = [x != y for x, y in zip(got, want)].index(True) if len(got) == len(want) else -1
+                    bad = f'party {i} result #{j} is {got[j] if j >= 0 else got} instead of {want[j] if j >= 0 else want} for inputs {inputs} (seed {seed})'; break
             if bad is None:
                 nres = len(res[0][2])
                 for h in range(nres):
-                    d = sharing_defect([r[2][h] for r in res], t, p, want[h])
+                    if p is None:       # generalised form: shares are (modulus, share value, expected secret or None)
+                        ph, _, exp_h = res[0][2][h]
+                        if not isinstance(ph, int): continue
+                        d = sharing_defect([r[2][h][1] for r in res], t, ph, exp_h)
+                    else:
+                        d = sharing_defect([r[2][h] for r in res], t, p, want[h])
                     nsh += 1
                     if d: bad = f'result #{h}: {d} (inputs {inputs}, seed {seed})'; break
             if bad is None:
